@@ -699,6 +699,8 @@ class Encoder:
         if re.fullmatch(r"[A-Z][A-Za-z0-9_]*", path):
             # bare (trimmed-path) enum variant such as `Day`: unique across the scanned enums?
             owners = [en for en, vs in self.enums.items() if path in vs and path in UNIT_VARIANTS.get(en, ())]
+            if not owners and path in ("Less", "Equal", "Greater"):
+                return VEnum(z3.IntVal(STD_ENUMS["Ordering"][path]), {path: {}}, "Ordering", STD_ENUMS["Ordering"])
             if hint_ty:
                 h = strip_generics(hint_ty).split("::")[-1]
                 if h in owners:
